@@ -1,13 +1,13 @@
 package main
 
 import (
-	"reflect"
 	"fmt"
 	"io/ioutil"
 	"math"
 	"math/rand"
 	"os"
 	"path/filepath"
+	"reflect"
 	"strconv"
 	"strings"
 
@@ -99,13 +99,21 @@ type recBounds struct {
 }
 
 // the decoding struct: geometry through the interface, attribute fields matched by tag / name in another case
+// read-side struct for files written through EncodeFields (columns id, NAME, Value): every tag names a column the file
+// does not have, every field name is a column name in another case
+type recFallback struct {
+	Geom  geom.Geom
+	Id    int     `shp:"ident"`
+	Name  string  `shp:"label"`
+	VALUE float64 `shp:"val"`
+}
+
 type recAny struct {
 	Geom geom.Geom
-	Id   int     `shp:"ID"`
+	Id   int `shp:"ID"`
 	NAME string
 	V    float64 `shp:"VALUE"`
 }
-
 
 // second column layout: a 10-byte and an 11-byte column name (the DBF limit), the string column last
 type recPointB struct {
@@ -455,6 +463,19 @@ func runC16(c map[string]interface{}) []Event {
 						}
 						e["id"], e["name"] = c16IDBack(rec.Id), nameIndex(rec.NAME)
 						got = rec.V
+					}
+				} else if (len(written)+int(seed()))%2 == 1 {
+					// a file written through EncodeFields, read with DecodeRow into a struct whose tags name no column of the
+					// file while its field names do (in another case): fields are matched by tag or by name
+					var rec recFallback
+					more := dec.DecodeRow(&rec)
+					e["more"] = more
+					if more {
+						if rec.Geom != nil {
+							e["g"] = encGeom(rec.Geom, c16CoordEnc)
+						}
+						e["id"], e["name"] = c16IDBack(rec.Id), nameIndex(rec.Name)
+						got = rec.VALUE
 					}
 				} else {
 					g, fields, more := dec.DecodeRowFields("id", "NAME", "Value")
